@@ -113,6 +113,72 @@ CHECKS = {
               'Bounded: scalars {-2,-1,0,1/2,1,2}, operands constant 1 and one scalar variable, chains <=5 checked, <=2 replayed exhaustively, '
               'longer ones sampled by -simulate. Four defects repaired by fix: commits, three degenerate ones (zero multiples, numeric pieces) are '
               'listed in KNOWN_FINDINGS.json with the spec predicates Known_k. sum() and xtype N objective findings are reported to C06.')),
+    'C05': dict(
+        level='model_checking',
+        technique='TLC model checking of ArrayAlgebra.tla (NumPy semantics on symbolic arrays) + replay of every exported operator word into rsome (ro/lp/dro) with exact comparison of linear/const and raffine/affine + NumPy cross-check of the specification',
+        design_ref='DESIGN.md 2.8, 5/C05',
+        text=('TLC enumerates operator words (+,-,*,@ with constants on either side, unary minus, indexing with ints/negatives/stepped slices/newaxis/'
+              'ellipsis/integer lists/boolean masks, reshape/flatten/T, sum, concat/rstack/cstack/vec, diag/tril/triu/trace, and +,-,*,@ with a second '
+              'variable array incl. decision x random) over a decision array X and a random array Z, computing for every reachable state the shape and '
+              'the full symbolic content (one coefficient per monomial x_i*z_j) from NumPy reference semantics, and checks 12 algebraic laws of that '
+              'model. Every exported state is replayed: the word is first confirmed on NumPy object arrays of Python integers at a Kronecker point '
+              '(exit 2 on disagreement), then executed on real rsome objects whose densified linear/const (raffine/affine) must equal the exported '
+              'content coefficient by coefficient and whose shape must match; the first deviating step is located and named in the signature. An '
+              'operation that raises where NumPy gives a value is recorded, not alarmed (the property allows unsupported operations to raise).'),
+        note=('Trusted: TLC, NumPy as reference, float64 exactness of small integers. Bounded: bases of rank 0-3 with extents <=3 (14 shapes, 5 decision x '
+              'random pairs), constants up to rank 4, depth 2 exhaustive (lite catalogue on all bases, full catalogue at depth 1 and on 2 bases at depth 2), '
+              'depth 3-4 by simulation; leaf kinds Vars(ro, lp), VarSub, Affine, dro DecVar, DecRule; constants int/float/int32/0-d ndarray/Python scalar/'
+              'scipy.sparse (for * and @). Four defects are listed in KNOWN_FINDINGS.json (rank-4 matmul batch broadcasting, diag on non-square, '
+              'diag(fill) non-square, VarSub.shape), one was repaired (RoAffine * sparse).')),
+    'C07': dict(
+        level='model_checking',
+        technique='TLC model checking of IPCone.tla (power-cone tower) and LPSem.tla (brute-force MILP semantics) + replay of every exported parameter/program into rsome with exact multiplication-out of the emitted cones, closed-form atom values, re-formulation and three MILP interfaces',
+        design_ref='DESIGN.md 2.5, 5/C07',
+        text=('TLC runs the transcription of IPCone.to_soc/to_pot/split (one action per branch, recursion stack as state) for every weight vector within '
+              'the constants and for the vectors produced by the p-norm, power and geometric-mean callers, and checks in every state that the emitted and '
+              'pending cones multiply out to exactly |x|^(2^k) <= prod r_i^beta_i * s^(2^k-sum beta) (TowerExact), that split() only ever receives '
+              'well-formed cones, that the callers get the degree they asked for and that every allocated variable is auxiliary. For each exported beta the '
+              'real to_soc() output is decoded, multiplied out in exact fractions and compared with beta; each atom (pnorm int/rational, power p/q, gmean, '
+              'quad with every 2x2 integer PSD/NSD matrix in -2..2, sumsqr, square, norm 1/2/inf, abs, exp/log/pexp/plog/entropy/softplus/kldiv/pnorm-exc) '
+              'is optimised at pinned rational arguments and in small free programs with multipliers 1/2,1,2,3 as constraint and as objective against its '
+              'closed form (exact values from TLC where rational); models are re-formulated three times and must stay well-formed and of constant width; '
+              'mixed-integer programs enumerated by LPSem.tla (<=3 integer/binary variables with user bounds, <=3 rows) must return the brute-force optimum '
+              'computed by TLC on the default solver, OR-Tools and Gurobi.'),
+        note=('Trusted: TLC, float64 closed forms in harness/replay_ipcone.py, ECOS (SOC 1e-5, exp 5e-4) with Gurobi as second opinion for SOC (a numeric '
+              'alarm needs every capable solver to deviate the same way, or 10x margin with one solver), HiGHS/SCIP/Gurobi on 3-variable MILPs. Bounded: sum '
+              'beta <= 16/32 with <= 4/5 weights, p/q <= 8/12; the 3-variable MILP family is a seeded pseudo-random subtree (2-variable/1-row family exhaustive); '
+              'root-det caller not covered (no SDP solver).')),
+    'C16': dict(
+        level='model_checking',
+        technique='TLC model checking of LpFormat.tla (program generator + writer transcription + ideal token/cell acceptors) + replay of generated programs into rsome.lp/socp/ro + batch TLC validation of the lexed lp_export()/show() streams + read-back of to_lp() files with gurobipy',
+        design_ref='DESIGN.md 1.2, 4.2, 5/C16',
+        text=('TLC enumerates abstract programs (columns with type and bound pattern, rows with rank-encoded coefficients/rhs and sense, stored zeros, optional '
+              'cone, objective, model class, primal/dual/robust formula) and checks on a transcription of lp_export()/show() that the emitted stream is '
+              'accepted by an acceptor that accepts exactly the descriptions of the program (LP-format default bounds, free columns, sections, cone rows '
+              'after Subject To, General/Binary = vtype sets) and that mutilated streams are rejected. Every sampled program is built in the real library; the '
+              'ACTUAL formula is rank-encoded; the text of lp_export() and the frame of show() are lexed independently and validated by TLC against that '
+              'formula (one ACCEPT/REJECT per stream); the to_lp() file is read by gurobipy and compared exactly (coefficients, sense, rhs, bounds, types, '
+              'cones, objective) and by optimum with the formula, and the program reconstructed from the tokens is re-solved with HiGHS and Gurobi.'),
+        note=('Trusted: TLC, the LP lexer in harness/replay_lpformat.py (cross-checked per program by gurobipy.read), gurobipy as reference reader, HiGHS/Gurobi '
+              'on tiny programs. Bounded: <=3 user columns, <=3 rows, one cone, values from {+-1e12,+-2,+-1,+-0.5,+-1e-9,0,+-inf}. Optimum differences on data '
+              'outside [1e-6,1e6] are counted inconclusive (structure is still compared exactly). Exponential-cone/LMI rows are outside the property.')),
+    'C18': dict(
+        level='model_checking',
+        technique='TLC model checking of SocApprox.tla (transcription of GCProg.to_socp with aliasing) + exact replay of every exported behaviour into the real to_socp + TLC validation of structures recorded from ro/dro/gcp models + soc_solve accuracy against closed forms with ECOS and Gurobi',
+        design_ref='DESIGN.md 5/C18, 7 (#3)',
+        text=('TLC enumerates every layout of <=2 SOC / 1-3 exponential-cone (/ <=1 linear) constraints x degree 4..8 on an implementation-shaped transcription '
+              'of to_socp (block of 8+L variables, 3(3+L) cone columns, 7+3(3+L) rows, the exact rational coefficients, senses, lower bounds, cone index lists, '
+              'the aliasing of the cone list) and checks InputUntouched, PrefixPreserved, NoExpLeft, BlockShape and TaylorOrder4 (row 3 of a block is the order-4 '
+              'Taylor polynomial of exp, followed by L squarings). Every final state is replayed into the real GCProg.to_socp and compared exactly with the '
+              'program TLC computed. The same layouts are built as real models through ro, dro and gcp with exp, log, pexp, plog, expcone, entropy, softplus, '
+              'kldiv; the recorded (P, L, to_socp(P), P afterwards) are judged by TLC (prefix unchanged, only the cone columns linked, no exponential cone left, '
+              'input untouched; corrupted copies must be rejected). do_math() before/after soc_solve() must be equal and solve() must still give the exact '
+              'optimum. For pinned exponents x/z in [-4,4], cone first/middle/last among SOC constraints, constraint and objective forms, every degree and both SOC '
+              'interfaces, a fresh model is solved by soc_solve and compared with the closed-form optimum: error <= 1e-3 and not larger at the next degree.'),
+        note=('Trusted: TLC + Json module, closed forms (cross-checked per case by the exact ECOS exp-cone solve), ECOS/Gurobi on small SOCPs. A violation needs '
+              'error > 1e-3*|opt| + 10*max(1e-5, 2^L*feastol)*(1+|v|) or both solvers over the bound; results with a reduced-accuracy solver status (ECOS "Close to '
+              'optimal", seen at degree 8) are judged only when the second solver confirms. Bounded: default cuts (-30,60), degrees 4..8, <=3 exp-cone '
+              'constraints; the size-limited Gurobi licence refuses the largest models (ECOS only there).')),
     'C13': dict(
         level='model_checking',
         technique='TLC model checking of Partition.tla + replay of every exported history into rsome.dro + TLC trace validation',
